@@ -423,7 +423,7 @@ int main(int argc, char** argv) {
     else if (part == "ucastle") uni::UCASTLE(P, visit, false);
     else if (part == "perft") {
         auto seeds = uni::readSeeds(w.args.get("seeds", "corpus/seeds.fen"));
-        uni::UPERFT(seeds, (int)w.args.getInt("depth", 3), P, [&](const orc::Board& b, unsigned long long, int) { checkMoves(b); });
+        uni::UPERFT(seeds, (int)w.args.getInt("depth", 3), P, [&](const orc::Board& b, unsigned long long, int) { checkMoves(b); }, 2, [&]() { return w.dl.hit(); }); if (w.dl.hit()) R.exhaustive = false;
     }
     else if (part == "pgntrees") pgnTrees((int)w.args.getInt("nodes", 5));
     else if (part.rfind("g-", 0) == 0) garbage(part.substr(2), thorough);
